@@ -168,7 +168,7 @@ def mk(st, it):
 
 def _common(st, env, upto_keys):
     """facts about the objects created by loop 1: for every key U(q), q < upto_keys"""
-    sets = env.lookup("sets")
+    sets = st.ghost["sets"]
     M = sets.M
     W = st.ghost["W"]
     q2 = z3.Int("q2!c")
@@ -185,7 +185,7 @@ def _common(st, env, upto_keys):
 
 
 def inv1(st, env, k, old):
-    sets = env.lookup("sets")
+    sets = st.ghost["sets"]
     out = _common(st, env, k.t)
     out.append(("index-lists-empty", z3.ForAll([q], z3.Implies(z3.And(q >= 0, q < k.t), z3.And(Sx(st, z3.Select(sets.M, U(q))) == empty_set(),
                                                                                            z3.Select(fld(st, "indices", "dupfree", B), z3.Select(sets.M, U(q))))))))
@@ -195,7 +195,7 @@ def inv1(st, env, k, old):
 def havoc1(st, env, old):
     for f in ("wyckoff_letter", "element", "atomic_number", "multiplicity", "indices"):
         havoc_field(st, "WyckoffSet", f)
-    sets = env.lookup("sets")
+    sets = st.ghost["sets"]
     st.n += 1
     sets.K = fresh_set(st, "keys")
     sets.M = z3.Const("keymap!%d" % st.n, z3.ArraySort(I, I))
@@ -205,7 +205,7 @@ def havoc1(st, env, old):
 
 
 def inv2(st, env, k, old):
-    sets = env.lookup("sets")
+    sets = st.ghost["sets"]
     P = st.ghost["P"]
     out = _common(st, env, P.t)
     out.append(("index-list-is-the-orbit-among-the-atoms-seen",
@@ -221,7 +221,7 @@ def havoc2(st, env, old):
 
 
 def inv3(st, env, D, old):
-    sets = env.lookup("sets")
+    sets = st.ghost["sets"]
     mult = fld(st, "multiplicity", "v", I)
     return [("multiplicity-is-the-size", z3.ForAll([v], z3.Implies(D.mem(v), z3.Select(mult, z3.Select(sets.M, v)) == CARD(Sx(st, z3.Select(sets.M, v))))))]
 
